@@ -18,7 +18,26 @@ From BB Require Import BN Brute SpaceFacts TrapFacts PercolateFacts AttractorFac
   Strict PetriNet Control Meta FilterFacts PetriNetFacts TrappistFacts DiagramStruct DiagramSem1 DiagramCache
   DiagramDepth DiagramComplete Termination ControlFacts MetaFacts Candidates StrictFacts MinExpandFacts CandidatesFacts SymbolicTest SymbolicTestFacts Signed ReductionFacts ControlFacts2 Main Blocks BlocksFacts ObsFacts OwnerFacts CandidatesTerm
   PartialOwner BlockMath BlockComplete ASeeds ASeedsFacts LogChecks SkipRule SkipRuleFacts Names NamesFacts Perm PermFacts SCC SCCFacts SCCStruct ControlFacts3 SCCTerm FilterSym Main2 StrategyFacts ControlFacts4 SkipRuleFacts2 SCCComplete SCCAttr BlockComplete2 ControlFacts5 Iso SkipSem ControlFacts6.
-From BB Require Import PyLib PySrcBase PySrc PySrcFacts PyLibSd PySrcSdBase PySrcSdTarget PySrcSdTargetFacts PySrcEndToEndControl PyLib PyLibSd PyLibPerc PyLibCore PyLibControl PySrcControl PySrcControlFacts PySrcFindDriversFacts PySrcControlCorollaries.
+From BB Require Import PyLib PySrcBase PySrc PySrcFacts PyLibSd PySrcSdBase PySrcSdTarget PySrcSdTargetFacts PySrcEndToEndControl PyLib PyLibSd PyLibPerc PyLibCore PyLibControl PySrcControl PySrcControlFacts PySrcFindDriversFacts PySrcControlCorollaries PyLibSucc PySrcSucc PySrcSuccFacts PySrcSuccCtl PySrcSuccCtlFacts.
+
+(* translator tie: the function GENERATED from the current text of control.successions_to_target (PySrcSucc.v: optional generated expand_to_target, hot-lava scan, descendant sets, end points, simple paths, products of reduced motif lists, feed-forward elimination) returns the model's successions_ff on the diagram left by expand_to_target, for every diagram satisfying succ_inv and every target fixing at least one variable *)
+Theorem C06_source_successions_to_target : forall (fuel : nat) (N : net) (cfg : config) (d : sd) (target : list (option bool)) (ff : bool), succ_inv N d -> length target = nvars N -> 0 < count_fixed target -> let '(d1, r) := expand_to_target fuel N cfg d target None in py_successions_to_target fuel N cfg d target true ff = match r with | RRaised _ | RFuel => SRaise d1 r | _ => SRet d1 (successions_ff d1 target ff) end.
+Proof. exact py_successions_to_target_spec. Qed.
+
+Theorem C06_source_successions_scan : forall (fuel : nat) (N : net) (cfg : config) (d : sd) (target : list (option bool)) (ff : bool), succ_inv N d -> length target = nvars N -> 0 < count_fixed target -> py_successions_to_target fuel N cfg d target false ff = SRet d (successions_ff d target ff).
+Proof. exact py_successions_scan_spec. Qed.
+
+(* the empty target is outside the tie (and outside C06's quantifier): Python reads the empty intersection as inconsistent *)
+Theorem C06_source_successions_empty_target_differs : exists (N : net) (d : sd), succ_inv N d /\ py_successions_to_target 10 N {| max_motifs := 1000 |} d (top_space (nvars N)) false false <> SRet d (successions_ff d (top_space (nvars N)) false).
+Proof. exact py_successions_empty_target_differs. Qed.
+
+(* succession_control as written in the source (pinned glue calling the generated successions_to_target and drivers_of_succession) is the model's succession_control_ff filtered by successful_only *)
+Theorem C06_source_succession_control : forall (fuel : nat) (N : net) (cfg : config) (d : sd) (target : list (option bool)) (strat : bool) (maxd : option nat) (forb : option (list nat)) (so ff : bool), succ_inv N d -> length target = nvars N -> 0 < count_fixed target -> let '(d1, r) := expand_to_target fuel N cfg d target None in py_succession_control fuel N cfg d target strat maxd forb so ff = match r with | RRaised _ | RFuel => SRaise d1 r | _ => SRet d1 (filter (fun iv : list space * list (list space) * bool => negb so || snd iv) (succession_control_ff N d1 target strat maxd (forb_list forb) ff)) end.
+Proof. exact py_succession_control_spec. Qed.
+
+(* C06 for the SOURCE TEXT, end to end: after any history, every intervention the generated succession_control reports as successful is sound *)
+Theorem C06_source_text_succession_control_sound_after_any_history : forall (fuel : nat) (N : net) (cfg : config) (h : list op) (d : sd) (r : result) (target : list (option bool)) (d' : sd) (l : list (list space * list (list space) * bool)) (strat : bool) (maxd : option nat) (forb : option (list nat)) (so ff : bool) (succ : list space) (ctl : list (list space)), 1 <= max_motifs cfg -> length target = nvars N -> 0 < count_fixed target -> In (d, r) (run fuel N cfg (init N) h) -> py_succession_control fuel N cfg d target strat maxd forb so ff = SRet d' l -> In (succ, ctl, true) l -> let spaces := chain N succ (top_space (nvars N)) in length ctl = length succ /\ (forall i : nat, i < length succ -> forall drv : space, In drv (nth i ctl []) -> subspace (percolate_b N (merge drv (nth i spaces []))) (nth i succ []) = true /\ forced (override N drv) (nth i spaces []) (nth i succ [])) /\ intersect (last spaces []) target <> None /\ (forall M : space, min_trap N M -> subspace M (last spaces []) = true -> subspace M target = true).
+Proof. exact py_succession_control_after_any_history_sound. Qed.
 
 Theorem C06_override_forces : forall (N : net) (S : space) (d m : list (option bool)), trap_space N S -> length d = nvars N -> length m = nvars N -> compatible d S -> subspace (percolate_b N (merge d S)) m = true -> forced (override N d) S m.
 Proof. exact override_forces. Qed.
@@ -110,6 +129,11 @@ Proof. exact run_AnyInv_Anch. Qed.
 Theorem C06_target_expansion_from_any_plain_diagram : forall (fuel : nat) (N : net) (cfg : config) (target : list (option bool)) (d d' : sd), 1 <= max_motifs cfg -> length target = nvars N -> PlainInv N d -> expand_to_target fuel N cfg d target None = (d', RBool true) -> PlainInv N d' /\ TargetExpanded target d'.
 Proof. exact target_expansion_TargetExpanded_from. Qed.
 
+Print Assumptions C06_source_successions_to_target.
+Print Assumptions C06_source_successions_scan.
+Print Assumptions C06_source_successions_empty_target_differs.
+Print Assumptions C06_source_succession_control.
+Print Assumptions C06_source_text_succession_control_sound_after_any_history.
 Print Assumptions C06_override_forces.
 Print Assumptions C06_override_forces_code.
 Print Assumptions C06_find_drivers_force.
